@@ -48,3 +48,12 @@ Theorem C08_out_of_range_rejected : forall cfg s src tid uid n p a,
   h_channel_bind cfg s src tid uid (APresent n) (Some (PeerOk p)) = (s, [Error src MChannelBind tid 400%N false]).
 Proof. exact out_of_range_rejected. Qed.
 Print Assumptions C08_out_of_range_rejected.
+
+(* ---------- history level ---------- *)
+From Turn Require Import Common RelayCheck RelayProps RelayTrace.
+(* the predicate evaluated on the implementation's observed traces (chk_C08: bindings one-to-one and in range after every
+   step, ChannelData numbers in range, a conflicting or out-of-range ChannelBind that is answered is answered by an error
+   and changes nothing) holds on every trace of the model *)
+Theorem C08_predicate_holds_on_every_model_trace : forall cfg ep h, chk_C08 (model_case cfg ep h) = true.
+Proof. exact chk_C08_model. Qed.
+Print Assumptions C08_predicate_holds_on_every_model_trace.
